@@ -19,7 +19,10 @@ Definition enc_filter (f : wfilter) : bytes :=
   let nameLen := wrap16 (blen (wf_name f)) in
   let padded := padded_name_w nameLen in
   le 2 (wrap16 (wf_id f)) ++ le 2 nameLen ++ le 2 (wrap16 (wf_flags f)) ++ le 2 (wrap16 (blen (wf_cd f)))
-  ++ (if 0 <? nameLen then wf_name f ++ zeros (N.to_nat (padded - blen (wf_name f))) else [])
+  (* copy(buf[8:], name) into a buffer of 8 + padded + 4*ncd bytes, the client values then written from
+     8 + padded on: the name field is the first [padded] bytes of the name followed by zeros (a name longer
+     than [padded] - possible only when the uint16 arithmetic wraps, len(name) > 65528 - is cut) *)
+  ++ (if 0 <? nameLen then firstn (N.to_nat padded) (wf_name f ++ zeros (N.to_nat (padded - blen (wf_name f)))) else [])
   ++ concat (map (fun v => le 4 (wrap32 v)) (wf_cd f)).
 
 Definition enc_pipeline (fs : list wfilter) : bytes :=
